@@ -89,10 +89,10 @@ func runC12(c *fw.Ctx) {
 		cdefs = append(cdefs, cluster.TableDef{Name: t.name, SQL: t.sql, Retention: 48 * time.Hour, MaxFlush: maxFlush, PartitionBy: t.partBy})
 		sdefs = append(sdefs, dbh.TableDef{Name: t.name, SQL: t.sql, Retention: 48 * time.Hour, Stream: "inbound", PartitionBy: t.partBy})
 	}
-	// every other in-process case runs the leaders with a tiny per-follower send queue, so that a delayed,
+	// every fourth in-process case runs the leaders with a tiny per-follower send queue, so that a delayed,
 	// cut or stopped follower makes the queue fill up (the leader must then wait, not drop)
 	followQueue := 0
-	if c.Case%4 == 2 {
+	if c.Case%8 == 2 {
 		followQueue = 2 + r.Intn(20)
 		c.Obs("scenarios_with_tiny_follow_queue", 1)
 	}
@@ -369,7 +369,15 @@ func runC12(c *fw.Ctx) {
 				}
 				ts := base.Add(time.Hour)
 				vals := map[string]interface{}{"v": 1.0}
-				if err := cl.Leaders[li].DB.Insert("inbound", ts, dims, vals); err != nil {
+				// a leader that has just been started again refuses inserts until it has applied its schema
+				var err error
+				for until := time.Now().Add(30 * time.Second); ; {
+					if err = cl.Leaders[li].DB.Insert("inbound", ts, dims, vals); err == nil || time.Now().After(until) {
+						break
+					}
+					time.Sleep(50 * time.Millisecond)
+				}
+				if err != nil {
 					c.Inconclusive("barrier insert failed: %v", err)
 					return
 				}
